@@ -31,7 +31,24 @@ Section Mon.
     (negb ns_bound ||
      forallb (fun e => (k_ns (ev_key e) =? oi_ns (ow_id ow)) &&
                        match gk_scope (k_gk (ev_key e)) with Some true => true | _ => false end) (pc_events c)).
+
+  (** C04 at the phase level: TeardownPhase reports a phase as cleaned up only if, in the store after the
+      call, every listed object is absent or no longer controlled by the owner (or excluded by the teardown
+      preflight) - whatever third parties did between the read and the delete. *)
+  Definition m04p : bool :=
+    negb (pc_teardown c) ||
+    match pc_res c with
+    | OTd true =>
+        forallb (fun p =>
+          violates p ||
+          match lookup (key p) (pc_post c) with
+          | None => true
+          | Some o => negb (is_controller (flavor_strat (pc_flavor c)) (ow_id ow) o)
+          end) (pc_objects c)
+    | _ => true
+    end.
 End Mon.
 
 Definition judge09p (c : pcase) : bool * bool := (agree c, m09p c).
 Definition judge11p (c : pcase) : bool * bool := (agree c, m11p c).
+Definition judge04p (c : pcase) : bool * bool := (agree c, m04p c).
